@@ -484,6 +484,13 @@ CORPUS["C04"] += [B("screening error floor taken from the total vector potential
 CORPUS["C15"] += [B("frame-writer failure cleaned up but not re-raised", "R15.9", (RUNNER, "            del self.time_step_group[name]\n            raise\n", "            del self.time_step_group[name]\n            return\n")),
                   B("update errors logged and skipped in the run loop", "R15.9", (RUNNER, "                    function_result = self.function(", "                    try:\n                        pass\n                    except Exception:\n                        continue\n                    function_result = self.function("))]
 
+
+PSI_INPLACE = [(SOLVER, "        z = U * gamma**2 / 2 * psi\n", "        d_psi = (dt / u) * xp.sqrt(1 + gamma**2 * abs_sq_psi) * ((epsilon - abs_sq_psi) * psi + psi_laplacian @ psi)\n        psi *= U\n        z = gamma**2 / 2 * psi\n"),
+               (SOLVER, "                w = z * abs_sq_psi + U * (\n                    psi\n                    + (dt / u)\n                    * xp.sqrt(1 + gamma**2 * abs_sq_psi)\n                    * ((epsilon - abs_sq_psi) * psi + psi_laplacian @ psi)\n                )\n", "                w = z * abs_sq_psi + psi + U * d_psi\n")]
+PSI_ROTATED_COPY = [(SOLVER, "        z = U * gamma**2 / 2 * psi\n", "        d_psi = (dt / u) * xp.sqrt(1 + gamma**2 * abs_sq_psi) * ((epsilon - abs_sq_psi) * psi + psi_laplacian @ psi)\n        psi_rot = psi * U\n        z = gamma**2 / 2 * psi_rot\n"),
+                    (SOLVER, "                w = z * abs_sq_psi + U * (\n                    psi\n                    + (dt / u)\n                    * xp.sqrt(1 + gamma**2 * abs_sq_psi)\n                    * ((epsilon - abs_sq_psi) * psi + psi_laplacian @ psi)\n                )\n", "                w = z * abs_sq_psi + psi_rot + U * d_psi\n")]
+CORPUS["C02"] += [B("gauge rotation applied to psi in place", "R02.8", *PSI_INPLACE), E("gauge rotation applied to a fresh array", *PSI_ROTATED_COPY)]
+
 # ---------------------------------------------------------------------------
 # generic behaviour-preserving transformations of the anchor functions
 # ---------------------------------------------------------------------------
